@@ -3,6 +3,57 @@ use simfony::num::U256;
 use simfony::parse::ParseFromStr;
 use simfony::{Arguments, CompiledProgram, WitnessValues};
 
+/// run a compiled+satisfied program; "ok" or "exec-fail ..."
+fn exec(compiled: &CompiledProgram, witness: WitnessValues) -> String {
+    let satisfied = match compiled.satisfy(witness) {
+        Ok(x) => x,
+        Err(e) => return format!("satisfy-err {}", e.replace('\n', " ")),
+    };
+    let env = simfony::dummy_env::dummy();
+    let pruned = match satisfied.redeem().prune(&env) {
+        Ok(x) => x,
+        Err(e) => return format!("exec-fail {}", e.to_string().replace('\n', " ")),
+    };
+    let mut mac = match simfony::simplicity::BitMachine::for_program(&pruned) {
+        Ok(m) => m,
+        Err(e) => return format!("exec-fail limits {}", e.to_string().replace('\n', " ")),
+    };
+    match mac.exec(&pruned, &env) {
+        Ok(_) => "ok".to_string(),
+        Err(e) => format!("exec-fail {}", e.to_string().replace('\n', " ")),
+    }
+}
+
+/// plain build vs debug build of the same program, and the markers embedded in the debug build
+fn debug_info(src: &str, wit_text: &str) -> String {
+    use simfony::simplicity::dag::{DagLike, NoSharing};
+    use simfony::simplicity::node::Inner;
+    let witness = if wit_text.is_empty() { WitnessValues::default() } else {
+        match WitnessValues::parse_from_str(wit_text) { Ok(x) => x, Err(e) => return format!("witness-err {}", e.to_string().replace('\n', " ")) }
+    };
+    let plain = match CompiledProgram::new(src, Arguments::default(), false) { Ok(x) => x, Err(e) => return format!("compile-err {}", e.replace('\n', " ")) };
+    let debug = match CompiledProgram::new(src, Arguments::default(), true) { Ok(x) => x, Err(e) => return format!("compile-err-debug {}", e.replace('\n', " ")) };
+    let r_plain = exec(&plain, witness.shallow_clone());
+    let r_debug = exec(&debug, witness);
+    let mut markers: Vec<String> = Vec::new();
+    let mut cmrs: Vec<String> = Vec::new();
+    let commit = debug.commit();
+    for item in commit.as_ref().post_order_iter::<NoSharing>() {
+        if let Inner::AssertL(_, cmr) = item.node.inner() {
+            if let Some(call) = debug.debug_symbols().get(cmr) {
+                let kind = format!("{:?}", call.name());
+                let kind = kind.split('(').next().unwrap_or("").to_string();
+                markers.push(format!("{}|{}", call.text(), kind));
+                cmrs.push(format!("{}", cmr));
+            }
+        }
+    }
+    let plain_markers = plain.commit().as_ref().post_order_iter::<NoSharing>()
+        .filter(|item| matches!(item.node.inner(), Inner::AssertL(_, cmr) if plain.debug_symbols().get(cmr).is_some())).count();
+    format!("ok plain={} debug={} plain_markers={} markers={} cmrs={}", r_plain.split(' ').next().unwrap(), r_debug.split(' ').next().unwrap(),
+            plain_markers, super::hex(markers.join("\x1e").as_bytes()), cmrs.join(","))
+}
+
 /// compile `src` with the given argument / witness modules (module text, may be empty), run it on the Bit Machine
 fn run_program(src: &str, args_text: &str, wit_text: &str, debug: bool) -> String {
     let arguments = if args_text.is_empty() {
@@ -142,6 +193,7 @@ pub fn dispatch(parts: &[&str]) -> String {
             let pp = reparsed.as_ref() == Some(&v);
             format!("ok typed={} bits={} reconstruct={} printparse={} printed={}", well_typed, bits, round, pp, printed)
         }
+        "debug_info" => debug_info(&unhex(parts[1]), &unhex(parts[2])),
         "run" => {
             // run <src> <args module> <witness module> <debug 0|1>
             run_program(&unhex(parts[1]), &unhex(parts[2]), &unhex(parts[3]), parts.get(4) == Some(&"1"))
